@@ -27,6 +27,7 @@ Data races and the run-time's finalizer / munmap behaviour are outside any model
 import ZoektModel.C19.Converge
 import ZoektModel.C19.VfpSpec
 import ZoektModel.C19.Overlap
+import ZoektModel.C19.CowSpec
 namespace ZoektModel.C19
 open ZoektModel
 
@@ -215,6 +216,13 @@ theorem replaced_closable (s : CState) (sid : Nat) (hf : sid ∈ s.finalizable) 
     | false => rfl
     | true => exact absurd ((reachable_iff s sid).mp hr) hu
   exact ⟨{ s with closed := sid :: s.closed }, by simp [cstep, hf, hc, this]⟩
+
+/-- **the executable statement about the shard set holds of the model**: for every sequence of client operations
+    (replace batches, search begin / end, finalizer runs) that the model can perform, `checkCow` accepts what the model
+    observes -/
+theorem C19_checkCow (ops : List COp) (obs : List CObs) (h : cowObs CState.init ops = some obs) :
+    checkCow {} obs = none :=
+  checkCow_model ops CState.init {} obs CReach.init ⟨rfl, rfl, rfl, rfl, by simp [CState.init], rfl⟩ h
 
 /-! ## non-vacuity -/
 
